@@ -18,6 +18,7 @@ import (
 	"strconv"
 	"strings"
 	"sync"
+	"sync/atomic"
 	"time"
 
 	"github.com/tmpim/casket"
@@ -257,8 +258,15 @@ func (s *Server) Stop() error {
 	// connections in flight have drained
 	time.Sleep(DrainTime)
 	Rec.Emit(Event{Ev: "stopped", G: s.Gen, K: s.K})
+	if StopErr.Load() {
+		return errors.New("scripted: the grace period ran out")
+	}
 	return nil
 }
+
+// StopErr makes every fake server's Stop return an error after it has stopped (like an HTTP
+// server whose grace period ran out); casket logs such errors and carries on.
+var StopErr atomic.Bool
 
 // DrainTime is how long a fake server's Stop keeps draining after its Serve loop returned.
 var DrainTime = 300 * time.Microsecond
@@ -272,5 +280,9 @@ func Input(gen, n int, fail string, file bool) casket.Input {
 		fail += " nofile"
 	}
 	txt := fmt.Sprintf("g%d {\n\tverifcfg %d %s\n}\n", gen, n, fail)
+	if strings.HasPrefix(fail, "parse") {
+		// a file that does not parse: a directive the server type does not know
+		txt = fmt.Sprintf("g%d {\n\tverifnosuch %d\n}\n", gen, n)
+	}
 	return casket.CasketfileInput{Contents: []byte(txt), Filepath: "verif", ServerTypeName: "verif"}
 }
